@@ -360,8 +360,8 @@ func (concEngine) Corpus() []Case {
 		sched:  []int{0, 1, 0}})
 	// groups: group middleware + Use inside the group + route middleware, fallback route, abort in a middleware
 	add("group-fallback-abort", gCase{cache: 1, fallback: true,
-		progs: map[int]string{1: "SD:6b:31,N,GD:6b", 20: "P,N", 25: "E7,N", 30: "P,A,ST403,W:6e6f", 31: "N", 100: "W:67", 101: "W:68", 102: "P,W:6662"},
-		uses:  [][]int{{1}},
+		progs:  map[int]string{1: "SD:6b:31,N,GD:6b", 20: "P,N", 25: "E7,N", 30: "P,A,ST403,W:6e6f", 31: "N", 100: "W:67", 101: "W:68", 102: "P,W:6662"},
+		uses:   [][]int{{1}},
 		groups: map[int]gGroup{0: {prefix: "/g", mws: []int{20}, uses: []int{25}}},
 		routes: []gRoute{{gid: 0, methods: get, pattern: "/{id}", main: 100, useCalls: [][]int{{31}}},
 			{gid: 0, methods: get, pattern: "/s", main: 101, useCalls: [][]int{{30}}},
@@ -371,18 +371,18 @@ func (concEngine) Corpus() []Case {
 	// a handler keeps a Copy() of its context (data: route name, route path, user=alice); the requests served after
 	// its request has ended get the pooled context back and set user=bob: the copy must not change
 	add("copy-reuse", gCase{cache: -1,
-		progs: map[int]string{100: "SD:" + hx("user") + ":" + hx("alice") + ",CP,W:61", 101: "SD:" + hx("user") + ":" + hx("bob") + ",W:70"},
+		progs:  map[int]string{100: "SD:" + hx("user") + ":" + hx("alice") + ",CP,W:61", 101: "SD:" + hx("user") + ":" + hx("bob") + ",W:70"},
 		routes: []gRoute{{gid: -1, methods: get, pattern: "/jobs/{id}", main: 100}, {gid: -1, methods: get, pattern: "/ping", main: 101}},
-		reqs:  []ccReq{{"GET", "/jobs/7"}, {"GET", "/ping"}, {"GET", "/ping"}, {"GET", "/jobs/8"}},
-		sched: []int{0, 1, 2, 3}})
+		reqs:   []ccReq{{"GET", "/jobs/7"}, {"GET", "/ping"}, {"GET", "/ping"}, {"GET", "/jobs/8"}},
+		sched:  []int{0, 1, 2, 3}})
 	// the copy is taken in a global middleware before Next(), the request goes on (and sets more data) and ends
 	// while two other requests are parked; a 404 and a cached dynamic route follow on the pooled context
 	add("copy-parked", gCase{cache: 1, mna: true,
-		progs: map[int]string{1: "SD:6b31:31,CP,P,N,P", 2: "P,N", 100: "P,SD:6b32:32,SP,CP,W:64", 101: "W:73"},
-		uses:  [][]int{{1}, {2}},
+		progs:  map[int]string{1: "SD:6b31:31,CP,P,N,P", 2: "P,N", 100: "P,SD:6b32:32,SP,CP,W:64", 101: "W:73"},
+		uses:   [][]int{{1}, {2}},
 		routes: []gRoute{{gid: -1, methods: get, pattern: "/d0/{id}", name: "d", main: 100}, {gid: -1, methods: get, pattern: "/s0", main: 101}},
-		reqs:  []ccReq{{"GET", "/d0/7"}, {"GET", "/s0"}, {"GET", "/nope"}, {"GET", "/d0/7"}, {"POST", "/s0"}},
-		sched: []int{1, 2, 0, 0, 0, 0, 0, 3, 1, 4, 3, 2, 3, 1, 4}})
+		reqs:   []ccReq{{"GET", "/d0/7"}, {"GET", "/s0"}, {"GET", "/nope"}, {"GET", "/d0/7"}, {"POST", "/s0"}},
+		sched:  []int{1, 2, 0, 0, 0, 0, 0, 3, 1, 4, 3, 2, 3, 1, 4}})
 	// schedules that are not complete / mention finished requests
 	add("partial", gCase{cache: -1, noEnd: true,
 		progs:  map[int]string{100: "P,W:42,P"},
